@@ -262,6 +262,11 @@ def get_yaml_default_dumper():
             if tag == float_tag:
                 DefaultDumper.yaml_implicit_resolvers.setdefault(first_letter, []).append((tag, regexp))
 
+    # instances of subclasses of the basic scalar types are dumped like their base type, same as the json formats do
+    DefaultDumper.add_multi_representer(int, yaml.SafeDumper.represent_int)
+    DefaultDumper.add_multi_representer(float, yaml.SafeDumper.represent_float)
+    DefaultDumper.add_multi_representer(str, yaml.SafeDumper.represent_str)
+
     yaml_default_dumper = DefaultDumper
     return yaml_default_dumper
 
